@@ -724,6 +724,51 @@ def model_eval(ctx, items):
     return out, len(cases)
 
 
+def interface_cache_probe(ctx=None):
+    """the high-level path: run_bldfm_single with a GreensFunctionCache attached (miss, then hit, then a fresh cache object on the
+    same directory) returns bit for bit what it returns without one - on NON-SQUARE grids, for the default source and a user flux.
+    Returns [(signature, detail, replay)]."""
+    import tempfile
+    import numpy as np
+    if core.SRC not in sys.path:
+        sys.path.insert(0, core.SRC)
+    import logging
+    logging.disable(logging.CRITICAL)
+    import bldfm.config_parser as cp
+    import bldfm.interface as itf
+    from bldfm.cache import GreensFunctionCache
+    out = []
+    for (nx, ny), lv in (((6, 8), None), ((8, 5), [2, 0])):
+        raw = {"domain": {"nx": nx, "ny": ny, "xmax": 12.0 * nx, "ymax": 9.0 * ny, "nz": 3, "modes": [4, 4], "halo": 20.0, "ref_lat": 50.0, "ref_lon": 11.0},
+               "towers": [{"name": "A", "lat": 50.0003, "lon": 11.0004, "z_m": 3.0}],
+               "met": {"ustar": 0.4, "mol": -80.0, "wind_speed": 3.0, "wind_dir": 230.0},
+               "solver": {"closure": "MOST", "footprint": True, "precision": "double"}}
+        if lv is not None:
+            raw["domain"]["output_levels"] = lv
+        cfg = cp.parse_config_dict(raw)
+        tw = cfg.towers[0]
+        ref = itf.run_bldfm_single(cfg, tw, met_index=0)
+        cdir = tempfile.mkdtemp(prefix="c15itf_", dir=(ctx.build if ctx is not None else None))
+        steps = [("miss", GreensFunctionCache(cache_dir=cdir))]
+        steps.append(("hit", steps[0][1]))
+        steps.append(("hit-new-cache-object", None))
+        for lab, cache in steps:
+            cache = cache if cache is not None else GreensFunctionCache(cache_dir=cdir)
+            try:
+                got = itf.run_bldfm_single(cfg, tw, met_index=0, cache=cache)
+            except Exception as e:  # noqa: BLE001
+                out.append(("raises:" + lab, "run_bldfm_single(..., cache=...) raises %s: %s on a %dx%d grid" % (type(e).__name__, e, nx, ny), {"interface_cache": raw, "step": lab}))
+                break
+            bad = [k for k in ("conc", "flx") if np.shape(got[k]) != np.shape(ref[k]) or not np.array_equal(np.asarray(got[k]), np.asarray(ref[k]), equal_nan=True)]
+            bad += ["grid[%d]" % i for i in range(3) if np.shape(got["grid"][i]) != np.shape(ref["grid"][i]) or not np.array_equal(np.asarray(got["grid"][i]), np.asarray(ref["grid"][i]))]
+            if bad:
+                out.append(("differs-from-run-without-cache:" + lab,
+                            "run_bldfm_single on a %dx%d grid (levels %r) with a cache attached, step '%s': %s differ from the run without a cache (shape %r vs %r)"
+                            % (nx, ny, lv, lab, ", ".join(bad), np.shape(got["flx"]), np.shape(ref["flx"])), {"interface_cache": raw, "step": lab}))
+                break
+    return out
+
+
 def check(ctx):
     core.check_properties_file(ctx, "Properties/C15.v", THEOREMS, core.AX_NONE)
     # tie (B): translator + bridge lemmas for all requests/stores; the cache block lives in solver.py, so the solver's
@@ -732,6 +777,12 @@ def check(ctx):
     import solverslices
     py2coq_cache.run(ctx)
     solverslices.check_skeleton(ctx)
+    # the cache reaches the solver through run_bldfm_single (interface.py creates it and hands it on): the translator of that
+    # function and its bridge lemmas (built for C13) are obligations here too, and the high-level path is exercised below
+    import py2coq_interface
+    py2coq_interface.bridge(ctx, only=("GenInterface.v",))
+    for sig, detail, rep in interface_cache_probe(ctx):
+        ctx.fail("correspondence", "C15:interface:" + sig, detail, hint=rep)
     t0 = time.time()
     size_hint = 3100
     scns = pair_scenarios("pair") + pair_scenarios("cross", cross=True)
@@ -945,10 +996,20 @@ def oracle(ctx, hints):
                     "replay": {"scenario": strip(s), "finding": text,
                                "how": "steady_state_transport_solver(**request, cache=GreensFunctionCache(dir)) for each event, "
                                       "compared with the same call without cache"}})
+    if any(h and "interface_cache" in h for h in hints) or ctx.thorough:
+        for sig, detail, rep in interface_cache_probe(ctx):
+            out.append({"signature": "interface:" + sig, "what": "C15 " + detail, "replay": rep})
     return out
 
 
 def replay(body):
+    if "interface_cache" in body:
+        hits = interface_cache_probe(None)
+        for sig, detail, rep in hits:
+            print("FAILS", sig, detail)
+        if not hits:
+            print("holds: run_bldfm_single with a cache attached equals the run without one on the non-square grids")
+        return 1 if hits else 0
     import tempfile
 
     scn = body.get("scenario")
